@@ -42,6 +42,14 @@ pub struct Case {
     /// first, put into the peers table with plain redb before the store is opened for the history
     #[serde(default)]
     pub earlier: Vec<(u8, u8)>,
+    /// at the end the lists are read once more through the client API of a real engine opened on the database (file stores)
+    #[serde(default)]
+    pub via_api: bool,
+}
+
+/// about one file-backed case in twelve also reads through the client API (derived from generated values, no extra draw)
+fn steps_hash_is_rare(docs: &u8, clock: u8) -> bool {
+    *docs == 3 && clock != 0
 }
 
 fn peer16(i: u16) -> [u8; 32] {
@@ -94,7 +102,7 @@ impl Prop for C17 {
             prop_oneof![6 => Just(0u8), 2 => Just(1u8), 2 => Just(2u8)],
             prop_oneof![2 => Just(vec![]), 1 => vec((0u8..3, 0u8..9), 1..=8)],
         )
-            .prop_map(|(file, docs, steps, clock, earlier)| Case { file, docs, steps, clock, earlier: if file { earlier } else { vec![] } })
+            .prop_map(|(file, docs, steps, clock, earlier)| Case { file, docs, steps, clock, earlier: if file { earlier } else { vec![] }, via_api: file && steps_hash_is_rare(&docs, clock) })
             .boxed()
     }
 
@@ -257,6 +265,35 @@ impl Prop for C17 {
             if regs.iter().any(|(n, set, re)| *n >= 7 && set.len() >= 6 && *re) {
                 o.nontrivial = true;
                 o.class("eviction+refresh");
+            }
+            if c.via_api && c.file && !o.failed() {
+                o.class("lists-read-through-the-client-api-of-a-real-engine");
+                es(st.store.flush())?;
+                let path = st.path.clone().ok_or("file store without a path")?;
+                drop(st);
+                let dir = ctx.fresh_path("c17api-dir");
+                es(std::fs::create_dir_all(&dir))?;
+                es(std::fs::rename(&path, dir.join("docs.redb")))?;
+                let (endpoint, gossip, blobs) = crate::props::c07::api_fixture(ctx)?;
+                let res: R<()> = ctx.rt.block_on(async {
+                    use crate::props::c07::within;
+                    let engine = within("spawning the engine", iroh_docs::protocol::Docs::persistent(dir.clone()).spawn(endpoint, blobs, gossip)).await?.map_err(|e| format!("spawn: {e:?}"))?;
+                    for (d, ns) in docs.iter().enumerate() {
+                        if !exists[d] {
+                            continue;
+                        }
+                        let doc = es(within("open", engine.open(*ns)).await?)?.ok_or("document not there behind the engine")?;
+                        let got = es(within("get_sync_peers", doc.get_sync_peers()).await?)?;
+                        let want = if model[d].is_empty() { None } else { Some(model[d].clone()) };
+                        if got != want {
+                            o.fail("C17/mru-list", format!("through the client API: document {d} lists peers {:?}, the MRU model says {:?}", got.as_ref().map(|v| v.iter().map(|p| p[0]).collect::<Vec<_>>()), want.as_ref().map(|v| v.iter().map(|p| p[0]).collect::<Vec<_>>())));
+                        }
+                    }
+                    within("shutdown", iroh::protocol::ProtocolHandler::shutdown(&engine)).await?;
+                    Ok(())
+                });
+                let _ = std::fs::remove_dir_all(&dir);
+                return res;
             }
             st.cleanup();
             Ok(())
